@@ -358,13 +358,18 @@ def arb_cases(draw, tier):
     state = draw(states(n_markets=(2, 3), index=True, max_steps=6, with_quotes=False))
     return {"state": state, "volume": draw(st.integers(1, 20)), "threshold": draw(st.sampled_from([0.0, 0.5, 1.0, 5.0, 20.0]) | st.floats(0.0, 50.0)),
             "ttl": draw(st.one_of(st.none(), st.integers(1, 9))), "stopped": draw(st.sampled_from([None, None, None, "index", "component"])),
-            "index_access": draw(st.sampled_from([True, True, True, False])), "agent_seed": draw(st.integers(0, 1000))}
+            "index_access": draw(st.sampled_from([True, True, True, False])), "agent_seed": draw(st.integers(0, 1000)),
+            # in one case out of four the threshold is set to exactly the gap of the constructed state (must NOT act)
+            "threshold_at_gap": draw(st.integers(0, 3)) == 0}
 
 
 def arb_check(case):
     sim, markets, idx, allm = build_state(case["state"])
     a = ArbitrageAgent(agent_id=6, prng=random.Random(case["agent_seed"]), simulator=sim, name="arb")
-    settings = {"cashAmount": 1000, "assetVolume": 10, "orderVolume": case["volume"], "orderThresholdPrice": case["threshold"]}
+    threshold = case["threshold"]
+    if case.get("threshold_at_gap"):
+        threshold = abs(idx.get_market_price() - idx.get_index())
+    settings = {"cashAmount": 1000, "assetVolume": 10, "orderVolume": case["volume"], "orderThresholdPrice": threshold}
     if case["ttl"] is not None:
         settings["orderTimeLength"] = case["ttl"]
     acc = [m.market_id for m in markets] + ([idx.market_id] if case["index_access"] else [])
@@ -376,19 +381,23 @@ def arb_check(case):
     orders = _call(a.submit_orders, markets=allm)
     wellformed(orders, a, {m.market_id for m in allm}, case["ttl"] if case["ttl"] is not None else 1, "arbitrage agent")
     ip = idx.get_market_price()
-    iv = math.fsum(m.get_market_price() for m in markets) / len(markets)  # equal shares
+    iv = idx.get_index()  # the index value the documentation refers to (C17 checks it against the weighted average)
+    ref = math.fsum(m.get_market_price() for m in markets) / len(markets)  # equal shares
+    if not math.isclose(iv, ref, rel_tol=1e-12):
+        return CaseInfo(skipped=True, classes=["index_value_off"])
     gap = ip - iv
-    should = case["stopped"] is None and case["index_access"] and abs(gap) > case["threshold"]
-    near = abs(abs(gap) - case["threshold"]) <= 1e-9 * max(1.0, abs(iv))
+    should = case["stopped"] is None and case["index_access"] and abs(gap) > threshold
+    near = False  # gap and threshold are the very floats the agent compares: the boundary is exact
     if not should or near:
         if orders and not near:
-            raise Violation("C20.arb_acts_only_beyond_threshold", f"index price {ip!r}, index value {iv!r}, threshold {case['threshold']}, stopped {case['stopped']}, "
+            raise Violation("C20.arb_acts_only_beyond_threshold", f"index price {ip!r}, index value {iv!r}, threshold {threshold!r}, stopped {case['stopped']}, "
                                                                   f"index accessible {case['index_access']}: {len(orders)} orders emitted")
-        return CaseInfo(nontrivial=False, classes=["idle", "stopped" if case["stopped"] else "running"], sample={"gap": gap, "threshold": case["threshold"]})
+        return CaseInfo(nontrivial=False, classes=["idle", "stopped" if case["stopped"] else "running"] + (["gap_equals_threshold"] if abs(gap) == threshold else []),
+                        sample={"gap": gap, "threshold": threshold})
     n = len(markets)
     io = [o for o in orders if o.market_id == idx.market_id]
     if len(io) != 1 or len(orders) != n + 1:
-        raise Violation("C20.arb_basket", f"gap {gap!r} beyond threshold {case['threshold']}: {len(io)} index order(s), {len(orders) - len(io)} component order(s) for {n} components")
+        raise Violation("C20.arb_basket", f"gap {gap!r} beyond threshold {threshold!r}: {len(io)} index order(s), {len(orders) - len(io)} component order(s) for {n} components")
     buy_index = gap < 0
     if io[0].is_buy != buy_index or io[0].volume != n * case["volume"] or io[0].price != ip or io[0].kind != LIMIT_ORDER:
         raise Violation("C20.arb_index_order", f"index order buy={io[0].is_buy} volume={io[0].volume} price={io[0].price!r}; expected buy={buy_index} volume={n * case['volume']} price={ip!r}")
@@ -397,7 +406,7 @@ def arb_check(case):
         if len(co) != 1 or co[0].is_buy == buy_index or co[0].volume != case["volume"] or co[0].price != m.get_market_price() or co[0].kind != LIMIT_ORDER:
             raise Violation("C20.arb_component_order", f"component {m.name}: {[(o.is_buy, o.volume, o.price) for o in co]}; expected one {'sell' if buy_index else 'buy'} "
                                                        f"of {case['volume']} at {m.get_market_price()!r}")
-    return CaseInfo(nontrivial=True, classes=["buy_index" if buy_index else "sell_index"], sample={"gap": gap, "threshold": case["threshold"], "n": n,
+    return CaseInfo(nontrivial=True, classes=["buy_index" if buy_index else "sell_index"], sample={"gap": gap, "threshold": threshold, "n": n,
                                                                                               "orders": [[o.market_id, o.is_buy, o.volume, o.price] for o in orders]})
 
 
@@ -416,7 +425,7 @@ def vacuity(merged, tier):
 
     for part, cls, lim in (("fcn", "buy", 0.08), ("fcn", "sell", 0.08), ("fcn", "chart_term", 0.08), ("fcn", "window_shorter_than_history", 0.04),
                            ("msfcn", "volume_weighted", 0.08), ("maker", "quotes_from_book", 0.06), ("maker", "quotes_from_market_price", 0.06),
-                           ("arb", "buy_index", 0.04), ("arb", "sell_index", 0.04), ("arb", "idle", 0.06)):
+                           ("arb", "buy_index", 0.04), ("arb", "sell_index", 0.04), ("arb", "idle", 0.06), ("arb", "gap_equals_threshold", 0.04)):
         if fr(part, cls) < lim:
             return f"{part}: class {cls} below {lim:.0%}"
     return None
